@@ -51,8 +51,8 @@ func init() {
 }
 
 const (
-	quickCases    = 50000
-	thoroughCases = 1000000
+	quickCases    = 10000
+	thoroughCases = 420000
 )
 
 func stepOp(t *algz.Trie, tk []string) string {
@@ -333,6 +333,14 @@ func check(c core.Case, out []string) *core.Failure {
 			continue // patterns inserted since the last build: outside the property
 		}
 		all, ps = ph.All, ph.PS
+		if len(tk) == 1 && tk[0] == "dumpc" {
+			// compact dump of a big trie: compared with the pointer model; the independent
+			// part is only that the walk met no shared node and no stray fail pointer
+			if strings.Contains(out[i], "!shared") || strings.Contains(out[i], ";?") {
+				return &core.Failure{Key: "dump-structure", Desc: fmt.Sprintf("op %d dumpc: the pointer structure has a shared node or a fail pointer to no node of the trie", i)}
+			}
+			continue
+		}
 		if len(tk) == 1 && tk[0] == "dump" {
 			if key, desc := c05.CheckDump(all, out[i]); key != "" {
 				return &core.Failure{Key: key, Desc: fmt.Sprintf("op %d %q: %s", i, c.Lines[i], desc)}
@@ -402,7 +410,7 @@ func classify(c core.Case, out []string) []string {
 	if len(ps.P) < len(all) {
 		ls = append(ls, "pattern:duplicate-or-empty")
 	}
-	if g, w, _, _ := c05.QueueGrowth(all); g > 0 {
+	if g, w, _, _ := c05.QueueGrowthSmall(all); g > 0 {
 		ls = append(ls, "queue:grew")
 		if w >= 2 {
 			ls = append(ls, "queue:grew-wrapped-twice")
@@ -422,6 +430,11 @@ func classify(c core.Case, out []string) []string {
 		ls = append(ls, fmt.Sprintf("history:builds=%d", last.Round+1))
 		if last.NewInsideOld {
 			ls = append(ls, "history:new-pattern-inside-old-node")
+		}
+	}
+	for _, l := range c.Lines[1:] {
+		if l == "dumpc" {
+			ls = append(ls, "big:pointer-model-only+dumpc")
 		}
 	}
 	for i := 1; i < len(c.Lines); i++ {
@@ -526,8 +539,8 @@ func classify(c core.Case, out []string) []string {
 func exhaustive(ctx *core.Ctx) (int, string, []core.ExtraFailure) {
 	// the F4 situation needs a pattern of length ≥ 3 over two disjoint shorter ones, so
 	// the quick scope already takes ≤3 patterns of length ≤3 (texts ≤ 6)
-	maxPats, maxLen, maxText := 3, 3, 6
-	if ctx.Tier == "thorough" {
+	maxPats, maxLen, maxText := 3, 3, 5
+	if ctx.Tier == "thorough" || ctx.Escalate > 1 {
 		maxPats, maxLen, maxText = 3, 3, 8
 	}
 	pats := c05.ABStrings(1, maxLen)
